@@ -101,6 +101,8 @@ def extra(chk, sd, binp):
     gauge_schedules(chk, sd, binp)
     feature_paths(chk, sd, binp)
     removal_paths(chk, sd, binp)
+    import dist_common
+    dist_common.run(chk, sd, chk.tier, ["metconc"], {"C13"})
 
 
 def run(tier):
